@@ -424,6 +424,11 @@ def directed_c01():
     D.append(("elseif_assign_init_yielding", [("decl", "x", "a"), ("raw", "if g1 {\n\tYield(x)\n} else if x = b + 1; g2 {\n\tYield(x + 1)\n} else {\n\trt.Emit(rt.EFF, 32)\n}"), Y("x + 2")]))
     D.append(("if_define_init_yielding", [("raw", "if v := a + 1; v&1 == 0 {\n\tYield(v)\n} else {\n\tYield(v + 1)\n}"), Y("b")]))
     D.append(("if_incdec_init_in_loop", [("decl", "c", "0"), ("for", ("decl", "i", "0"), "i < n", ("inc", "i"), [("raw", "if c++; c&1 == 1 {\n\tYield(c + i)\n}")]), Y("c + 9")]))
+    for jn, jump in (("continue", ("continue",)), ("break", ("break",))):
+        D.append(("guard_%s_elseif_yields_then_rest" % jn, [("for", ("decl", "i", "0"), "i < n", ("inc", "i"), [Y("i + 1"), ("if", "g1", [E(1), jump], [("if", "g2", [Y("i + 100")], None)]), Y("i + 200"), E(2)]), Y("a + 3")]))
+        D.append(("guard_%s_two_elseifs_then_rest" % jn, [("for", ("decl", "i", "0"), "i < n", ("inc", "i"), [Y("i + 1"), ("if", "i == 1", [jump], [("if", "g1", [E(1)], [("if", "g2", [Y("i + 100"), E(3)], None)])]), E(2), Y("i + 200")]), Y("a + 3")]))
+        D.append(("guard_%s_elseif_in_block" % jn, [("for", ("decl", "i", "0"), "i < n", ("inc", "i"), [("block", [("if", "g1", [Y("i + 1"), jump], [("if", "g2", [Y("i + 100")], None)]), Y("i + 200")]), E(2)]), Y("a + 3")]))
+    D.append(("guard_return_elseif_yields_then_rest", [Y("a + 1"), ("if", "g1", [E(1), ("return",)], [("if", "g2", [Y("b + 100")], None)]), Y("a + 200"), E(2)]))
     D.append(("else_block_starts_with_trivial_if", [("if", "g1", [Y("a + 1")], [("if", "g2", [E(1)], None), Y("b + 2"), E(2)]), Y("a + 3")]))
     D.append(("else_block_trivial_if_in_loop", [("for", ("decl", "i", "0"), "i < n", ("inc", "i"), [("if", "i&1 == 0", [Y("i + 1")], [("if", "g2", [E(1)], None), E(2), Y("i + 2"), E(3)]), E(4)]), Y("a + 3")]))
     D.append(("yielding_switch_ends_loop", [("for", ("decl", "i", "0"), "i < n", ("inc", "i"), [("switch", None, "i&1", [("0", [Y("i + 1")])], None)]), Y("a + 2")]))
@@ -830,6 +835,11 @@ def directed_c03():
     D.append(("multi_define_in_tswitch_clause_after_yield", [("raw", "var t any = b"), ("tswitch", "v", "t", [("int", [("decl", "x", "a + 1"), ("raw", "p := &x"), Y("v + x"), ("raw", "x, w := v+2, a+3"), Y("x + w"), Y("*p + 5")])], None), Y("b + 9")]))
     D.append(("multi_define_in_default_clause_after_yield", [("switch", None, "b & 1", [("0", [Y("a")])], [("decl", "x", "a + 1"), ("raw", "set := func(v int) { x = v }"), Y("x + 1"), ("raw", "x, y := b+2, a+3"), ("raw", "set(x + y)"), Y("x + 2")]), Y("b + 9")]))
     D.append(("multi_define_in_if_and_loop_after_yield", [("decl", "x", "a + 1"), ("raw", "get := func() int { return x }"), ("for", ("decl", "i", "0"), "i < n", ("inc", "i"), [Y("get() + i"), ("raw", "x, y := x+i, i"), Y("x + y")]), ("if", "g1", [Y("x"), ("raw", "x, z := b, 1"), Y("x + z + get()")], None), Y("get() + 9")]))
+    # a multi-value ':=' that re-assigns a name declared in the function / clause header
+    D.append(("multi_define_reassigns_parameter", [("raw", "get := func() int { return a }"), Y("get() + 1"), ("raw", "a, z := a+10, b+1"), Y("a + z"), Y("get() + 2"), ("raw", "set := func(v int) { a = v }\nset(b + 3)"), Y("a + 4")]))
+    D.append(("multi_define_reassigns_parameter_before_yield", [("raw", "p := &a"), ("raw", "a, z := b+10, 1"), Y("a + z"), Y("*p + 2")]))
+    D.append(("multi_define_reassigns_tswitch_guard", [("raw", "var t any = b"), ("tswitch", "v", "t", [("int", [("raw", "p := &v"), Y("v + 1"), ("raw", "v, w := v+a, 2"), Y("v + w"), Y("*p + 3")])], None), Y("b + 9")]))
+    D.append(("multi_define_reassigns_loop_var_and_param", [("for", ("decl", "i", "0"), "i < n", ("inc", "i"), [("raw", "get := func() int { return b }"), Y("get() + i"), ("raw", "b, k := b+i+1, i"), Y("b + k"), Y("get() + 5")]), Y("b + 6")]))
     D.append(("init_after_yield", [Y("a + 1"), ("for", ("decl", "x", "a"), "x < a + n", ("inc", "x"), [Y("x + 2")]), ("decl", "x", "b"), Y("x + 3")]))
     # loop-variable identity: closures created in one iteration, called after the loop
     D.append(("range_var_captured_escapes", [("raw", "var fs []func() int"), ("range", "_", "v", ":=", "[]int{a, b, a + b}", [("raw", "fs = append(fs, func() int { return v })"), Y("v + 1")]), ("raw", "for _, f := range fs {\n\tYield(f() + 1000)\n}")]))
